@@ -122,6 +122,164 @@ Theorem C19_refuse_unknown_unit : forall ip hasdot fd al,
 Proof. exact humanized_unknown_unit. Qed.
 Print Assumptions C19_refuse_unknown_unit.
 
+(** empty or blank-only name, with or without coordinates *)
+Theorem C19_refuse_empty_name : forall w rest, forallb is_blank w = true ->
+  parse_region_string (w ++ c_colon :: rest) = None /\ parse_region_string w = None.
+Proof. exact refuse_empty_name. Qed.
+Print Assumptions C19_refuse_empty_name.
+
+(** missing hyphen: for EVERY colon-free name and EVERY text after the colon whose part up to the next
+    colon contains no '-' *)
+Theorem C19_refuse_missing_hyphen : forall name rest,
+  forallb notcolon name = true ->
+  forallb (fun c => negb (is_hyphen c)) (take_while notcolon rest) = true ->
+  parse_region_string (name ++ c_colon :: rest) = None.
+Proof. exact refuse_missing_hyphen. Qed.
+Print Assumptions C19_refuse_missing_hyphen.
+
+(** leading '-' (a negative start) whatever follows *)
+Theorem C19_refuse_leading_hyphen : forall name w rest,
+  forallb notcolon name = true -> forallb is_blank w = true ->
+  parse_region_string (name ++ c_colon :: w ++ c_hyphen :: rest) = None.
+Proof. exact refuse_leading_hyphen. Qed.
+Print Assumptions C19_refuse_leading_hyphen.
+
+(** non-numeric start: the first non-blank character after the colon is not in [0-9,] *)
+Theorem C19_refuse_nonnumeric_start : forall name w x rest,
+  forallb notcolon name = true -> forallb is_blank w = true ->
+  is_blank x = false -> is_digit_or_comma x = false -> is_colon x = false ->
+  parse_region_string (name ++ c_colon :: w ++ x :: rest) = None.
+Proof. exact refuse_nonnumeric_start. Qed.
+Print Assumptions C19_refuse_nonnumeric_start.
+
+(** nothing but blanks after the colon *)
+Theorem C19_refuse_no_coordinates : forall name w tail,
+  forallb notcolon name = true -> forallb is_blank w = true -> colon_tail tail ->
+  parse_region_string (name ++ c_colon :: w ++ tail) = None.
+Proof. exact refuse_no_coordinates. Qed.
+Print Assumptions C19_refuse_no_coordinates.
+
+(** non-numeric or negative end ("5--3", "5-x") *)
+Theorem C19_refuse_nonnumeric_end : forall name w1 t1 w2 w3 x rest,
+  forallb notcolon name = true ->
+  forallb is_blank w1 = true -> forallb is_blank w2 = true -> forallb is_blank w3 = true ->
+  ctok_ok_b t1 = true -> is_blank x = false -> is_digit_or_comma x = false -> is_colon x = false ->
+  parse_region_string (name ++ c_colon :: w1 ++ ctok_str t1 ++ w2 ++ c_hyphen :: w3 ++ x :: rest) = None.
+Proof. exact refuse_nonnumeric_end. Qed.
+Print Assumptions C19_refuse_nonnumeric_end.
+
+(** reversed *)
+Theorem C19_refuse_reversed : forall name w1 t1 w2 w3 t2 junk a b,
+  name_ok_b name = true ->
+  forallb is_blank w1 = true -> forallb is_blank w2 = true -> forallb is_blank w3 = true ->
+  ctok_ok_b t1 = true -> ctok_ok_b t2 = true -> tok_end junk ->
+  ctok_val t1 = Some a -> ctok_val t2 = Some b -> b < a ->
+  parse_region_string (name ++ c_colon :: w1 ++ ctok_str t1 ++ w2 ++ c_hyphen :: w3 ++ ctok_str t2 ++ junk) = None.
+Proof. exact refuse_reversed. Qed.
+Print Assumptions C19_refuse_reversed.
+
+(** unknown unit in either coordinate of a region string *)
+Theorem C19_refuse_unknown_unit_region : forall name w1 t1 w2 w3 t2 junk,
+  name_ok_b name = true ->
+  forallb is_blank w1 = true -> forallb is_blank w2 = true -> forallb is_blank w3 = true ->
+  ctok_ok_b t1 = true -> ctok_ok_b t2 = true -> tok_end junk ->
+  (t_al t1 <> [] /\ unit_mult (map to_upper (t_al t1)) = None) \/
+  (t_al t2 <> [] /\ unit_mult (map to_upper (t_al t2)) = None) ->
+  parse_region_string (name ++ c_colon :: w1 ++ ctok_str t1 ++ w2 ++ c_hyphen :: w3 ++ ctok_str t2 ++ junk) = None.
+Proof. exact refuse_unknown_unit_region. Qed.
+Print Assumptions C19_refuse_unknown_unit_region.
+
+(** coordinates are never negative *)
+Theorem C19_token_value_nonneg : forall t v, ctok_ok_b t = true -> ctok_val t = Some v -> 0 <= v.
+Proof. exact ctok_val_nonneg. Qed.
+Print Assumptions C19_token_value_nonneg.
+
+(** ---- "or are refused", for ALL strings: whatever parse_region_string accepts is a non-empty colon-free
+    name without blanks at its ends and either no coordinates or 0 <= start (<= end) *)
+Theorem C19_parse_region_string_sound : forall s c oa ob,
+  parse_region_string s = Some (c, oa, ob) ->
+  c <> [] /\ forallb notcolon c = true /\ stops is_blank c /\ stops is_blank (rev c) /\
+  ((oa = None /\ ob = None) \/
+   exists a, oa = Some a /\ 0 <= a /\ forall b, ob = Some b -> a <= b).
+Proof. exact parse_region_string_sound. Qed.
+Print Assumptions C19_parse_region_string_sound.
+
+Theorem C19_parse_humanized_nonneg : forall s v, parse_humanized s = Some v -> 0 <= v.
+Proof. exact parse_humanized_nonneg. Qed.
+Print Assumptions C19_parse_humanized_nonneg.
+
+(** the tokenizer's fuel is never exhausted: it satisfies the defining equation of re.finditer *)
+Theorem C19_tokenize_unfold : forall s,
+  tokenize s = match match_at s with None => [] | Some (t, rest) => t :: tokenize rest end.
+Proof. exact tokenize_eq. Qed.
+Print Assumptions C19_tokenize_unfold.
+
+(** ---- parse_region: defaults and bounds *)
+
+(** whatever parse_region returns is a known chromosome with 0 <= start <= end <= length, start and end
+    being the parsed ones or the defaults 0 / length *)
+Theorem C19_parse_region_sound : forall s cs c a b,
+  parse_region s cs = Some (c, a, b) ->
+  0 <= a <= b /\
+  (exists oa ob, parse_region_string s = Some (c, oa, ob) /\ (oa = Some a \/ oa = None /\ a = 0) /\
+                 match cs with
+                 | None => ob = Some b
+                 | Some t => exists L, lookup c t = Some L /\ b <= L /\ (ob = Some b \/ ob = None /\ b = L)
+                 end).
+Proof. exact parse_region_sound. Qed.
+Print Assumptions C19_parse_region_sound.
+
+Theorem C19_parse_region_complete : forall s t c oa ob L,
+  parse_region_string s = Some (c, oa, ob) -> lookup c t = Some L ->
+  let a := match oa with Some a => a | None => 0 end in
+  let b := match ob with Some b => b | None => L end in
+  0 <= a <= b -> b <= L ->
+  parse_region s (Some t) = Some (c, a, b).
+Proof. exact parse_region_complete. Qed.
+Print Assumptions C19_parse_region_complete.
+
+Theorem C19_parse_region_unknown_name : forall s t c oa ob,
+  parse_region_string s = Some (c, oa, ob) -> lookup c t = None -> parse_region s (Some t) = None.
+Proof. exact parse_region_unknown_name. Qed.
+Print Assumptions C19_parse_region_unknown_name.
+
+Theorem C19_parse_region_beyond_end : forall s t c oa b L,
+  parse_region_string s = Some (c, oa, Some b) -> lookup c t = Some L -> L < b -> parse_region s (Some t) = None.
+Proof. exact parse_region_beyond_end. Qed.
+Print Assumptions C19_parse_region_beyond_end.
+
+(** ---- parse_cooler_uri.  [no_dcolon s]: no two adjacent colons in s; [last_notcolon f]: f does not end in ':' *)
+Theorem C19_uri_plain : forall f, no_dcolon f = true -> parse_cooler_uri f = Some (f, [c_slash]).
+Proof. exact uri_plain. Qed.
+Print Assumptions C19_uri_plain.
+
+Theorem C19_uri_split : forall f g,
+  no_dcolon f = true -> last_notcolon f = true -> no_dcolon g = true ->
+  parse_cooler_uri (f ++ c_colon :: c_colon :: g) = Some (f, norm_group g).
+Proof. exact uri_split. Qed.
+Print Assumptions C19_uri_split.
+
+(** f::g and f::/g give the same pair (f, /g) *)
+Theorem C19_uri_slash_invariant : forall f g,
+  no_dcolon f = true -> last_notcolon f = true -> no_dcolon g = true ->
+  match g with c :: _ => is_slash c = false | [] => True end ->
+  parse_cooler_uri (f ++ c_colon :: c_colon :: g) = Some (f, c_slash :: g) /\
+  parse_cooler_uri (f ++ c_colon :: c_colon :: c_slash :: g) = Some (f, c_slash :: g).
+Proof. exact uri_slash_invariant. Qed.
+Print Assumptions C19_uri_slash_invariant.
+
+(** two separators are refused, wherever they stand: ALL a, b, c *)
+Theorem C19_uri_two_separators : forall a b c,
+  parse_cooler_uri (a ++ c_colon :: c_colon :: b ++ c_colon :: c_colon :: c) = None.
+Proof. exact uri_two_separators_any. Qed.
+Print Assumptions C19_uri_two_separators.
+
+(** every returned group path starts with '/' *)
+Theorem C19_uri_group_rooted : forall s f g, parse_cooler_uri s = Some (f, g) ->
+  exists c g', g = c :: g' /\ is_slash c = true.
+Proof. exact uri_result_shape. Qed.
+Print Assumptions C19_uri_group_rooted.
+
 (** ---- non-vacuity / regression examples (evaluated) *)
 Example ex_C19_D6_regression :
   parse_humanized (lit "1.001k") = Some 1001 /\
@@ -157,4 +315,22 @@ Example ex_C19_visible_leniency :
   parse_humanized (lit "1.0001k") = Some 1000 /\
   parse_region_string (lit "chr1:10-20-30") = Some (lit "chr1", Some 10, Some 20) /\
   parse_region_string (lit "chr1:1-2:junk") = Some (lit "chr1", Some 1, Some 2).
+Proof. vm_compute. repeat split; reflexivity. Qed.
+
+Example ex_C19_uri :
+  parse_cooler_uri (lit "a/b.mcool::resolutions/10") = Some (lit "a/b.mcool", lit "/resolutions/10") /\
+  parse_cooler_uri (lit "a/b.mcool::/resolutions/10") = Some (lit "a/b.mcool", lit "/resolutions/10") /\
+  parse_cooler_uri (lit "a/b.cool") = Some (lit "a/b.cool", lit "/") /\
+  parse_cooler_uri (lit "a::b::c") = None /\
+  no_dcolon (lit "C:/x.cool") = true /\ last_notcolon (lit "C:/x.cool") = true /\ no_dcolon (lit "a::b") = false.
+Proof. vm_compute. repeat split; reflexivity. Qed.
+
+Example ex_C19_parse_region :
+  let cs := Some [(lit "chr1", 1000); (lit "chr 2", 500)] in
+  parse_region (lit "chr1:0.1k-1k") cs = Some (lit "chr1", 100, 1000) /\
+  parse_region (lit "chr1:0.1k-1.001k") cs = None /\
+  parse_region (lit "chr 2") cs = Some (lit "chr 2", 0, 500) /\
+  parse_region (lit "chr 2:100-") cs = Some (lit "chr 2", 100, 500) /\
+  parse_region (lit "chr3:1-2") cs = None /\
+  parse_region (lit "chr1:5-") None = None.
 Proof. vm_compute. repeat split; reflexivity. Qed.
